@@ -25,7 +25,8 @@ RULE = (
     "(a) random files = prologue + start marker + body + end marker + epilogue: styles x86 {movl|mov $111,%ebx + .byte "
     "100,103,144 on 1/2/3 lines, #/'//' OSACA-BEGIN..END, none}, AArch64 {mov x1,#111 + .byte 213,3,32,31 on 1/2/4 lines, "
     "// OSACA-BEGIN..END, none}; decoys (other value, other register + NOP bytes; right mov without bytes or with other/fewer bytes) in all three "
-    "parts; non-trivial = file has a marker and (a decoy or a non-instruction line in the body); (b) random --lines "
+    "parts; a third of the x86 files are integer-only code with hexadecimal literals (no register the ISA guess recognises), a sample "
+    "of all files goes through inspect() with --arch; non-trivial = file has a marker and (a decoy or a non-instruction line in the body); (b) random --lines "
     "strings of 1-6 items a | a-b | a:b; (c) shipped marked kernel x model x {fixed,optimal}: 4 variants; non-trivial = "
     ">=1 noise line inserted and kernel has a CP; distinct = digest of file text / string / (file, model, noise seed)"
 )
